@@ -243,6 +243,9 @@ def r7_no_reject(c, facts, rule='C18.R7'):
 
 
 def run(c, facts):
+    import c17 as _c17q
+    c.run(lambda c: _c17q.r8_cursor_on_identifier(c, facts, rule='C18.R14'))     # rename resolves the cursor among identifiers (shared C17.R8)
+    c.run(lambda c: c08.r17_name_keyed_state(c, facts, rule='C18.R15'))          # a correct rename cannot change which declarations share evaluator state
     import c17
     R9 = c.rule('C18.R9', 'DEF-IDENT / CURSOR: rename edits the occurrences of the definition under the cursor and no other: definitions are compared by (module, node), and a position is on an identifier only inside its half-open span (shared with C17.R1, C17.R5)')
     c.shared(R9, c17.r1_def_ident, 'C17.R1', facts)
